@@ -8,3 +8,18 @@ package query
 //@   assumed
 //@   pure
 //@ end
+
+// the time span of the segment a request covers (uninterpreted functions of the
+// request, so that the searcher's two cut-off predicates can be related)
+//@ func (*QuerySegmentRequest).GetStartEpochMs
+//@   assumed
+//@   pure
+//@   ensures result == uf("qsrStart", uint64, qsr)
+//@   note ASSUMED abstraction: the getter returns a field of the request's time range, which nothing in the searcher's round selection writes; modelled as a function of the request
+//@ end
+//@ func (*QuerySegmentRequest).GetEndEpochMs
+//@   assumed
+//@   pure
+//@   ensures result == uf("qsrEnd", uint64, qsr)
+//@   note ASSUMED abstraction, as GetStartEpochMs
+//@ end
